@@ -429,6 +429,11 @@ class Interp:
         if op == 'Eq':
             return self.equals(a, b)
         if op == 'NotEq':
+            for x, y in ((a, b), (b, a)):
+                if hasattr(x, 'py_ne'):               # element-wise != of array-like values
+                    r = x.py_ne(self, y)
+                    if r is not NOT_IMPLEMENTED:
+                        return r
             return z_not(self.truth_term(self.equals(a, b)))
         for x, refl in ((a, False), (b, True)):
             if hasattr(x, 'py_compare'):
